@@ -54,6 +54,11 @@ pub const DECLS: &[(&str, &str)] = &[
   ("fn-overloads", "export function f@N(a: string): string;\nexport function f@N(a: @R): @R;\nexport function f@N(a: any): any { return a; }\n"),
   ("fn-generic", "export function f@N<T extends @R>(a: T, b?: @R, ...rest: @R[]): T { return a; }\n"),
   ("fn-default-param", "export function f@N(a: @R, b: number = 5, c = \"s\"): void {}\n"),
+  ("fn-inferred-default-before-required", "export function f@N(first = 1, second: @R, third = \"s\"): void {}\n"),
+  ("fn-annotated-default-before-required", "export function f@N(first: number = 1, second: @R): void {}\n"),
+  ("fn-optional-then-default", "export function f@N(a: @R, b?: number, c: string = \"x\"): void {}\n"),
+  ("class-method-default-before-required", "export class C@N { constructor(x = 1, y: @R) {} m(first = true, second: @R): void {} static s(a = [1], b: number): void {} }\n"),
+  ("arrow-default-before-required", "export const c@N = (first = 1, second: @R): void => {};\n"),
   ("fn-destructured-param", "export function f@N({ a, b }: { a: @R; b: number }): void {}\n"),
   ("const-annotated", "export const c@N: @R = null as any;\n"),
   ("const-literal", "export const c@N = 1;\n"),
